@@ -70,4 +70,11 @@ def Cert.glr (g : Grammar) (t : Table) : Bool :=
   let nul := Canon.nullable g
   Cert.nulOk g nul && Cert.structuralRN g t (autosOf g t) nul && Cert.symbolsOk g t && Cert.total g t 0
 
+/-- the layout automaton (if any) is covered by the structural certificate and passes `Cert.total`: with
+    `Cert.glr` this makes the nested LR layout parser panic free (`Proofs/GlrLayout.lean`) -/
+def Cert.glrLayout (g : Grammar) (t : Table) : Bool :=
+  match t.layoutState with
+  | none => true
+  | some ls => (autosOf g t).any (fun au => au.start == ls) && Cert.total g t ls
+
 end Rustemo
